@@ -9,41 +9,39 @@ use i_overlay::core::overlay_rule::OverlayRule;
 
 include!(concat!(env!("GEO_VERIF_DIR"), "/contracts/kani/common.rs"));
 
+/// ring -> path: a closed ring becomes the implicitly closed path of its vertices, in order, WITHOUT any
+/// trailing copy of the first vertex (i_overlay closes paths implicitly) -- also when the closing vertex is
+/// repeated.  Concrete rings are written as `vec![..]` literals (CBMC constant-folds those; rings built by
+/// pushes are read back symbolically and the collect() of a symbolic-length slice exhausts memory).
 #[cfg(kani)]
-fn ring_f64(n: usize) -> LineString<f64> {
-    // pairwise distinct concrete coordinates (the glue only copies them)
-    let mut v = Vec::with_capacity(8);
-    let mut i = 0;
-    while i < n { v.push(Coord { x: (i as f64) * 3.0 + 1.0, y: 10.0 - (i as f64) }); i += 1; }
-    LineString(v)
-}
-
-/// ring -> path: a closed ring of n+1 coordinates becomes the implicit-closed path of its n distinct vertices,
-/// in order; the path never ends with a copy of its first vertex (i_overlay closes paths implicitly)
-#[cfg(kani)]
-fn body_ring_to_path(n: usize, extra_closing: usize) {
-    let mut ring = ring_f64(n);
-    if n > 0 {
-        let f = ring.0[0];
-        let mut k = 0;
-        while k < 1 + extra_closing { ring.0.push(f); k += 1; }     // closed; `extra_closing` repeats the closing vertex
-    }
+fn check_path(ring: LineString<f64>, want: &[Coord<f64>]) {
     let path = ring_to_shape_path(&ring);
-    if n == 0 { assert!(path.is_empty()); return; }
-    assert!(path.len() == n);
+    assert!(path.len() == want.len());
     let mut i = 0;
-    while i < n { assert!(path[i].0 == ring.0[i]); i += 1; }
-    // no trailing copy of the first vertex
-    assert!(path.len() == n || path[path.len() - 1].0 != path[0].0);
+    while i < want.len() { assert!(path[i].0 == want[i]); i += 1; }
 }
-#[cfg(kani)] #[kani::proof] #[kani::unwind(10)]
-fn c04_k_ring_to_path_0() { body_ring_to_path(0, 0); }
-#[cfg(kani)] #[kani::proof] #[kani::unwind(10)]
-fn c04_k_ring_to_path_4() { body_ring_to_path(4, 0); }
-#[cfg(kani)] #[kani::proof] #[kani::unwind(10)]
-fn c04_k_ring_to_path_4_repeated_closing_vertex() { body_ring_to_path(4, 1); }
-#[cfg(kani)] #[kani::proof] #[kani::unwind(10)]
-fn c04_k_ring_to_path_3_twice_repeated_closing_vertex() { body_ring_to_path(3, 2); }
+#[cfg(kani)]
+fn c(x: f64, y: f64) -> Coord<f64> { Coord { x, y } }
+
+#[cfg(kani)] #[kani::proof] #[kani::unwind(8)]
+fn c04_k_ring_to_path_empty() { check_path(LineString(vec![]), &[]); }
+#[cfg(kani)] #[kani::proof] #[kani::unwind(8)]
+fn c04_k_ring_to_path_square() {
+    check_path(LineString(vec![c(0., 0.), c(4., 0.), c(4., 4.), c(0., 4.), c(0., 0.)]), &[c(0., 0.), c(4., 0.), c(4., 4.), c(0., 4.)]);
+}
+#[cfg(kani)] #[kani::proof] #[kani::unwind(8)]
+fn c04_k_ring_to_path_repeated_closing_vertex() {
+    check_path(LineString(vec![c(0., 0.), c(4., 0.), c(4., 4.), c(0., 4.), c(0., 0.), c(0., 0.)]), &[c(0., 0.), c(4., 0.), c(4., 4.), c(0., 4.)]);
+}
+#[cfg(kani)] #[kani::proof] #[kani::unwind(8)]
+fn c04_k_ring_to_path_twice_repeated_closing_vertex() {
+    check_path(LineString(vec![c(1., 1.), c(5., 1.), c(3., 4.), c(1., 1.), c(1., 1.), c(1., 1.)]), &[c(1., 1.), c(5., 1.), c(3., 4.)]);
+}
+/// a vertex equal to the first one in the MIDDLE of the ring is kept (only trailing repeats are dropped)
+#[cfg(kani)] #[kani::proof] #[kani::unwind(8)]
+fn c04_k_ring_to_path_revisits_start_in_the_middle() {
+    check_path(LineString(vec![c(0., 0.), c(4., 0.), c(0., 0.), c(0., 4.), c(0., 0.)]), &[c(0., 0.), c(4., 0.), c(0., 0.), c(0., 4.)]);
+}
 
 /// shape -> polygon: first path is the exterior, the rest are holes; every ring is closed and has the
 /// REVERSED vertex order (i_overlay: outer clockwise / holes counter-clockwise, geo: the opposite)
@@ -51,7 +49,8 @@ fn c04_k_ring_to_path_3_twice_repeated_closing_vertex() { body_ring_to_path(3, 2
 #[kani::proof]
 #[kani::unwind(10)]
 fn c04_k_polygon_from_shape() {
-    let mk = |n: usize, off: f64| { let mut p = Vec::with_capacity(8); let mut i = 0; while i < n { p.push(BoolOpsCoord(Coord { x: off + i as f64, y: off * 2.0 - i as f64 })); i += 1; } p };
+    const T: [(f64, f64); 4] = [(0.0, 0.0), (1.0, -1.0), (2.0, -2.0), (3.0, -3.0)];
+    let mk = |n: usize, off: f64| { let mut p = Vec::with_capacity(8); let mut i = 0; while i < n { p.push(BoolOpsCoord(Coord { x: off + T[i].0, y: off + T[i].1 })); i += 1; } p };
     let mut shape = Vec::with_capacity(2);
     shape.push(mk(4, 0.0));
     shape.push(mk(3, 100.0));
@@ -91,3 +90,4 @@ fn c04_k_op_type_to_overlay_rule() {
 
 #[cfg(kani)]
 include!(concat!(env!("GEO_VERIF_DIR"), "/.work/playback/pb_c04_convert.rs"));
+
